@@ -119,6 +119,27 @@ class ModuleRef:
         return '<module %s>' % self.name
 
 
+_KNOWN = None
+
+
+def _known_functions():
+    global _KNOWN
+    if _KNOWN is None:
+        try:
+            import json as _json
+            with open(os.path.join(os.path.dirname(os.path.dirname(os.path.abspath(__file__))), 'contracts', 'known_functions.json')) as fh:
+                _KNOWN = set(_json.load(fh)['functions'])
+        except Exception:
+            _KNOWN = None
+            return _All()
+    return _KNOWN
+
+
+class _All:
+    def __contains__(self, x):
+        return True
+
+
 class FuncRef:
     def __init__(self, mod, node, qualname):
         self.mod, self.node, self.qualname = mod, node, qualname
@@ -408,6 +429,10 @@ class Executor:
         return paths
 
     def run(self, fref, args=(), kwargs=None, base_pc=()):
+        if isinstance(fref, FuncRef) and '.' in fref.qualname and args and isinstance(args[0], Tm) and '__class__' not in args[0].attrs:
+            cname = fref.qualname.split('.')[0]
+            if cname in fref.mod.classes:
+                args[0].attrs['__class__'] = ClassRef(fref.mod, fref.mod.classes[cname])      # the receiver of a method is an instance of its class
         def thunk(ex):
             if isinstance(fref, FuncRef):
                 return ex.apply(fref.node, None, fref.mod, list(args), dict(kwargs or {}), fref.qualname)
@@ -432,6 +457,10 @@ class Executor:
             return self.apply(f.node, f.env, f.mod, args, kwargs, f.name, defaults=f.defaults)
         if isinstance(f, FuncRef):
             pol = self.policy(f)
+            if pol == 'abstract' and f.fullname not in _known_functions():
+                # a function the contracts were never written against (a helper extracted by a refactor, a renamed function): there is no
+                # contract to abstract it by, so execute it
+                pol = 'inline'
             if pol == 'inline':
                 return self.apply(f.node, None, f.mod, args, kwargs, f.qualname)
             if callable(pol):
@@ -1405,6 +1434,27 @@ class Executor:
                 return obj.attrs[name]
             if isinstance(obj, Closure):
                 raise PyRaise('AttributeError', name)
+            cls = obj.attrs.get('__class__')
+            if isinstance(cls, ClassRef):
+                # an opaque instance of a known class: a method the contract did not stub is the class's own method, bound to the object
+                # (inlined or abstracted by the usual policy; helpers extracted by a refactor are unknown to the contracts and get inlined)
+                c = cls
+                seen = set()
+                while c is not None and c.node.name not in seen:
+                    seen.add(c.node.name)
+                    q = c.node.name + '.' + name
+                    if q in c.mod.funcs:
+                        fr = FuncRef(c.mod, c.mod.funcs[q], q)
+                        if fr.fullname not in _known_functions():
+                            return PyFn(lambda *a, _fr=fr, **k: self.call(_fr, [obj] + list(a), k), q)
+                        break
+                    nxt = None
+                    for b in c.node.bases:
+                        bn = getattr(b, 'id', None)
+                        if bn and bn in c.mod.classes:
+                            nxt = ClassRef(c.mod, c.mod.classes[bn])
+                            break
+                    c = nxt
             return Tm('attr:' + name, obj)
         if isinstance(obj, VObj):
             if name in obj.attrs:
@@ -1539,6 +1589,13 @@ class Executor:
                 shp.append(len(a.items))
                 a = a.items[0] if a.items else None
             return tuple(shp) if name == 'shape' else len(shp)
+        if obj.kind == 'ndarray':
+            # arrays under contract in dadi are Spectrum objects: a method the array model does not know is looked up on the class and run on the object
+            mi = ModInfo.by_name('dadi.Spectrum_mod')
+            q = 'Spectrum.' + name
+            if mi is not None and q in mi.funcs:
+                fr = FuncRef(mi, mi.funcs[q], q)
+                return PyFn(lambda *a, **k: self.call(fr, [obj] + list(a), k), 'Spectrum.' + name)
         raise Unsupported('list attribute %s' % name)
 
     def dict_method(self, obj, name):
